@@ -19,6 +19,7 @@ package message1_1
 // *TransferMessage1_1 in which IsRequest, Request (nullable) and Response (nullable) are arbitrary.
 
 import (
+	"bytes"
 	"io"
 	"strings"
 
@@ -600,4 +601,39 @@ func VerifC12_PublishedSchemaPinned() {
 		return
 	}
 	zz.Assert(verifNormalizeSchema(string(embedSchema)) == verifPublishedSchema, "the embedded schema is the published one (comments and spacing aside)")
+}
+
+// VerifC15_TrailingBytesAreRejectedByTheDecoder is NOT a symbolic harness (native only): property
+// C15's "a malformed stream is reset and reported without invoking a message handler" rests, for
+// streams that START with a well-formed message, on the decoder's contract that FromNet reads ONE
+// message and rejects anything that follows it before returning (handleNewStream dispatches only
+// after FromNet succeeded - that part is decided symbolically by VerifC15_InboundMalformed with the
+// decoder stubbed). Checked here on the real bindnode / dag-cbor decoder for a request and a
+// response followed by a stray byte, a truncated second message, and text.
+//
+//verif:opts nativeonly
+func VerifC15_TrailingBytesAreRejectedByTheDecoder() {
+	zz.Reach("native-only decoder contract")
+	if zz.Engine() {
+		return
+	}
+	req, err := NewRequest(7, false, true, nil, zz.CidFromAtom("base"), nil)
+	zz.Assert(err == nil, "request built")
+	resp, err := NewResponse(7, true, false, nil)
+	zz.Assert(err == nil, "response built")
+	n := 0
+	for _, m := range []datatransfer.Message{req, resp, CancelRequest(9)} {
+		var one bytes.Buffer
+		zz.Assert(m.ToNet(&one) == nil, "encoded")
+		clean, err := FromNet(bytes.NewReader(one.Bytes()))
+		zz.Assert(err == nil && clean != nil, "a single well-formed message decodes")
+		half := one.Bytes()[:one.Len()/2]
+		for _, tail := range [][]byte{{0xff}, {0xfc, 0x00, 0x01}, half, []byte("GET / HTTP/1.1\r\n")} {
+			stream := append(append([]byte{}, one.Bytes()...), tail...)
+			got, err := FromNet(bytes.NewReader(stream))
+			zz.Assert(err != nil && got == nil, "a well-formed message followed by anything else is rejected as a whole, before any message is handed out")
+			n++
+		}
+	}
+	zz.ModelValidated = n
 }
